@@ -190,6 +190,14 @@ theorem map_some_inj : ∀ {l₁ l₂ : List α}, l₁.map some = l₂.map some 
     simp only [List.map_cons, List.cons.injEq, Option.some.injEq] at h
     rw [h.1, map_some_inj h.2]
 
+theorem unweld_attrLen {m : MeshVal α} (h : WF m) : m.unweld.attrLen = m.indices.length := by
+  cases ha : m.attrs with
+  | nil => simp [unweld, attrLen, mapAttrs, ha, indices_nil_of_attrs_nil h ha]
+  | cons kd t =>
+    have hlt : ∀ i ∈ m.indices, i < kd.2.length := fun i hi => by
+      rw [h.1 kd (by simp [ha])]; exact h.2.1 i hi
+    simp [unweld, attrLen, mapAttrs, ha, gather_length hlt]
+
 theorem gather_range (l : List α) : gather l (List.range l.length) = l := by
   have h1 : (gather l (List.range l.length)).map some = l.map some := by
     rw [gather_map_some (by intro i hi; simpa using hi), range_map_getElem?]
